@@ -15,4 +15,3 @@ class ResNetConfig(ModelConfig):
     num_blocks: int = 15
     batchnorm: bool = True
     scale: Optional[float] = 0.1
-    image_init: str = "sense"
